@@ -1038,7 +1038,7 @@ def run_sequence(kind, config_name, seed, seq, ops, stop_at_first=True, skip_sig
                     tobj = tw.twin if not label.startswith("cmp:") else type(tw.twin)
                     tw.policy_records.append((config_name, perm, nm, safe_hasattr(tobj, nm), safe_hasattr(tobj, "exposed_" + nm), denied, label))
             after = snap(tw.target)
-            step = dict(label=label, operands=[o.origin for o in operands], proxy=res_p, twin=res_t, denied=denied)
+            step = dict(label=label, operands=[o.origin for o in operands], values=[repr(o.for_twin)[:80] for o in operands], proxy=res_p, twin=res_t, denied=denied)
             tw.steps.append(step)
             if denied:
                 if after != before:
@@ -1385,7 +1385,7 @@ def oracle_search(ctx, corr, broken):
 
 def describe_seq(kind, cfg, seed, seq, ops):
     problems, tw = run_sequence(kind, cfg, seed, seq, ops, stop_at_first=False)
-    return [(s["label"], s["operands"], str(s["proxy"])[:120], str(s["twin"])[:120]) for s in tw.steps]
+    return [(s["label"], s["values"], str(s["proxy"])[:120], str(s["twin"])[:120]) for s in tw.steps]
 
 
 def known_probes(ctx):
@@ -1423,6 +1423,6 @@ def replay(case):
     ops = build_ops()
     seq = [tuple(x) for x in case["seq"]]
     problems, tw = run_sequence(case["target"], case["config"], case["seed"], seq, ops, stop_at_first=False)
-    out["steps"] = [(s["label"], s["operands"], str(s["proxy"])[:200], str(s["twin"])[:200]) for s in tw.steps]
+    out["steps"] = [(s["label"], s["operands"], s["values"], str(s["proxy"])[:200], str(s["twin"])[:200]) for s in tw.steps]
     out["oracle"] = ["step %d (%s): %s [%s]" % p for p in problems] or "holds"
     return out
